@@ -514,6 +514,14 @@ func ruleOffsets(c *Ctx, p *core.Program) {
 				if !neighbours(bo.X, bo.Y) && !neighbours(bo.Y, bo.X) {
 					continue
 				}
+				// a "finder" helper without error result: the decrease edge returns a marker, the
+				// caller fails on it
+				if _, hasErr := core.ReturnsError(fn.Signature); !hasErr && fn != dec && fn.Signature.Results().Len() == 1 {
+					if finderFails(fn, ifi, dec) {
+						found = true
+					}
+					continue
+				}
 				// one edge must lead only to failure
 				for si := 0; si < 2; si++ {
 					start := core.Point{B: b.Succs[si], I: -1}
@@ -785,6 +793,31 @@ func rulePanics(c *Ctx, p *core.Program) {
 				})
 				if len(edges) > 0 && core.OnlyViaEdges(raw, s, edges) {
 					guarded = true
+				}
+				// the width may come from a parsing helper that validates it before returning successfully
+				if ex, ok := stripConv(s.Val).(*ssa.Extract); ok && !guarded {
+					if hc, ok := ex.Tuple.(*ssa.Call); ok {
+						if g := core.StaticFn(hc); g != nil && g.Blocks != nil && pkgOf(g) != nil && pkgOf(g).Path() == core.PkgProto {
+							ge := core.CondEdges(g, true, func(cond ssa.Value) (bool, bool) {
+								_, ok := core.CallTo(cond, func(f *types.Func) bool { return f.Name() == "IsACardinalityKey" })
+								return true, ok
+							})
+							all, any := true, false
+							for _, gb := range g.Blocks {
+								ret, ok := gb.Instrs[len(gb.Instrs)-1].(*ssa.Return)
+								if !ok || !defaultSuccess(g, ret) {
+									continue
+								}
+								any = true
+								if len(ge) == 0 || !core.OnlyViaEdges(g, ret, ge) {
+									all = false
+								}
+							}
+							if any && all {
+								guarded = true
+							}
+						}
+					}
 				}
 			}
 		}
@@ -1149,4 +1182,159 @@ func ruleRowsUsed(c *Ctx, p *core.Program, rule string) {
 		}
 	}
 	c.R.Floor(rule, cfg, n, 40)
+}
+
+// finderFails: g is a helper whose comparison `ifi` (inside a loop) has an edge from which only
+// returns of a "found" marker are reachable, every other return yields one constant "none"
+// value, and in caller every test of the helper's result sends the found side to failure only.
+func finderFails(g *ssa.Function, ifi *ssa.If, caller *ssa.Function) bool {
+	b := ifi.Block()
+	for si := 0; si < 2; si++ {
+		foundRets := map[*ssa.Return]bool{}
+		loops := false
+		hits := core.ReachAvoiding(core.Point{B: b.Succs[si], I: -1}, func(x ssa.Instruction) bool {
+			if x == ssa.Instruction(ifi) {
+				loops = true
+				return true
+			}
+			_, ok := x.(*ssa.Return)
+			return ok
+		}, nil, nil)
+		for _, h := range hits {
+			if r, ok := h.At.(*ssa.Return); ok {
+				foundRets[r] = true
+			}
+		}
+		if loops || len(foundRets) == 0 {
+			continue
+		}
+		// the other returns: one constant
+		var none *int64
+		okNone := true
+		for _, bb := range g.Blocks {
+			r, ok := bb.Instrs[len(bb.Instrs)-1].(*ssa.Return)
+			if !ok || foundRets[r] {
+				continue
+			}
+			k, okc := constIntOrBool(r.Results[0])
+			if !okc || none != nil && *none != k {
+				okNone = false
+				break
+			}
+			none = &k
+		}
+		if !okNone || none == nil {
+			continue
+		}
+		clash := false
+		for r := range foundRets {
+			if k, okc := constIntOrBool(r.Results[0]); okc && k == *none {
+				clash = true
+			}
+		}
+		if clash {
+			continue
+		}
+		// caller side
+		okCaller, any := true, false
+		for _, call := range core.Calls(caller) {
+			if core.StaticFn(call) != g {
+				continue
+			}
+			v := call.Value()
+			if v == nil {
+				continue
+			}
+			for _, cb := range caller.Blocks {
+				ci, ok := cb.Instrs[len(cb.Instrs)-1].(*ssa.If)
+				if !ok {
+					continue
+				}
+				taken, ok := foldCondAt(ci.Cond, v, *none)
+				if !ok {
+					continue
+				}
+				any = true
+				foundSucc := 0
+				if taken {
+					foundSucc = 1
+				}
+				w := core.ReachAvoiding(core.Point{B: cb.Succs[foundSucc], I: -1}, func(x ssa.Instruction) bool {
+					if r, isRet := x.(*ssa.Return); isRet {
+						return defaultSuccess(caller, r)
+					}
+					return core.IsCallOf(x, isColMethod("DecodeColumn"))
+				}, nil, nil)
+				if len(w) > 0 {
+					okCaller = false
+				}
+			}
+		}
+		if any && okCaller {
+			return true
+		}
+	}
+	return false
+}
+
+func constIntOrBool(v ssa.Value) (int64, bool) {
+	if k, ok := core.ConstInt(v); ok {
+		return k, true
+	}
+	if c, ok := v.(*ssa.Const); ok && c.Value != nil {
+		switch c.Value.String() {
+		case "true":
+			return 1, true
+		case "false":
+			return 0, true
+		}
+	}
+	return 0, false
+}
+
+// foldCondAt evaluates cond when value v equals k: cond is v itself (bool), !v, or a comparison of v with a constant.
+func foldCondAt(cond, v ssa.Value, k int64) (bool, bool) {
+	c, pol := core.StripNot(cond)
+	if c == v {
+		return (k != 0) == pol, true
+	}
+	bo, ok := c.(*ssa.BinOp)
+	if !ok {
+		return false, false
+	}
+	var a, b int64
+	switch {
+	case bo.X == v:
+		kc, ok := core.ConstInt(bo.Y)
+		if !ok {
+			return false, false
+		}
+		a, b = k, kc
+	case bo.Y == v:
+		kc, ok := core.ConstInt(bo.X)
+		if !ok {
+			return false, false
+		}
+		a, b = kc, k
+	default:
+		return false, false
+	}
+	var r bool
+	switch bo.Op {
+	case token.EQL:
+		r = a == b
+	case token.NEQ:
+		r = a != b
+	case token.LSS:
+		r = a < b
+	case token.LEQ:
+		r = a <= b
+	case token.GTR:
+		r = a > b
+	case token.GEQ:
+		r = a >= b
+	default:
+		return false, false
+	}
+	return r == pol, true
 }
